@@ -8,6 +8,7 @@ import (
 	"encoding/json"
 	"fmt"
 	"sort"
+	"strings"
 	"time"
 
 	"github.com/zeromicro/go-zero/core/discov/internal"
@@ -21,12 +22,14 @@ type VerifClusterCase struct {
 		Key   string `json:"key"`
 		Exact bool   `json:"exact"`
 	} `json:"watchers"`
-	Ops []json.RawMessage `json:"ops"`
+	Ops  []json.RawMessage `json:"ops"`
+	Base int64             `json:"base"` // revision of the empty store (0: 1)
+	Eps  int               `json:"eps"`  // number of endpoints of the etcd cluster (0: 1)
 }
 
 // VerifResHook builds a resolver (discovBuilder.Build) on discov://host/key; supplied by the
 // executor of zrpc/resolver/internal.
-type VerifResHook func(host, key string) (vals func() []string, pubs func() [][]string, closefn func(), err error)
+type VerifResHook func(hosts, key string) (vals func() []string, pubs func() [][]string, closefn func(), err error)
 
 type verifClSub struct {
 	w     int
@@ -49,13 +52,29 @@ func verifClSorted(v []string) []string {
 // VerifRunCluster runs one case.
 func VerifRunCluster(cs VerifClusterCase, hook VerifResHook) (res map[string]any) {
 	host := fmt.Sprintf("verif-c13-c-%d-%d", cs.ID, time.Now().UnixNano())
-	etcd := internal.VerifNewEtcd(host)
-	eps := func() []string { return []string{host} }
+	hosts := []string{host}
+	if cs.Eps > 1 {
+		hosts = []string{host + "-b", host + "-a"}
+	}
+	etcd := internal.VerifNewEtcd(hosts...)
+	if cs.Base > 1 {
+		etcd.VSetBase(cs.Base)
+	}
+	// the registry sorts the slice it is given in place: a fresh copy per call, in either order
+	flip := false
+	eps := func() []string {
+		l := append([]string{}, hosts...)
+		if flip && len(l) > 1 {
+			l[0], l[1] = l[1], l[0]
+		}
+		return l
+	}
 	subs := map[int]*verifClSub{}
 	spies := map[int]*internal.VerifSpy{}
 	nlist := map[int]int{} // listeners per watcher (spy included)
 	var order []int
 	paused := false
+	everStuck := false
 	var steps []any
 	defer func() {
 		if r := recover(); r != nil {
@@ -67,7 +86,7 @@ func VerifRunCluster(cs VerifClusterCase, hook VerifResHook) (res map[string]any
 		for w, sp := range spies {
 			internal.GetRegistry().Unmonitor(eps(), cs.Watchers[w].Key, cs.Watchers[w].Exact, sp)
 		}
-		internal.VerifDropEtcd(host)
+		internal.VerifDropEtcd(hosts...)
 	}()
 
 	for _, raw := range cs.Ops {
@@ -116,6 +135,7 @@ func VerifRunCluster(cs VerifClusterCase, hook VerifResHook) (res map[string]any
 			nlist[w]--
 		case "sub":
 			sid, w, mode, excl := geti(1), geti(2), gets(3), getb(4)
+			flip = len(parts) > 5 && getb(5) // endpoints given in the other order: the same cluster
 			wk := cs.Watchers[w]
 			s := &verifClSub{w: w, mode: mode}
 			switch mode {
@@ -146,7 +166,7 @@ func VerifRunCluster(cs VerifClusterCase, hook VerifResHook) (res map[string]any
 				s.vals = sub.Values
 				s.close = sub.Close
 			case "res":
-				vals, pubs, closefn, err := hook(host, wk.Key)
+				vals, pubs, closefn, err := hook(strings.Join(eps(), ","), wk.Key)
 				if err != nil {
 					errs = err.Error()
 					break
@@ -193,7 +213,7 @@ func VerifRunCluster(cs VerifClusterCase, hook VerifResHook) (res map[string]any
 		case "stale":
 			etcd.VStale(int64(geti(1)))
 		case "reconnect":
-			if !internal.VerifClusterReload(host) {
+			if !internal.VerifClusterReload(hosts...) {
 				errs = "no cluster"
 			}
 		default:
@@ -206,8 +226,15 @@ func VerifRunCluster(cs VerifClusterCase, hook VerifResHook) (res map[string]any
 				expect = append(expect, internal.VerifTag(cs.Watchers[w].Key, cs.Watchers[w].Exact))
 			}
 		}
-		etcd.VerifBind(host)
-		stuck := !etcd.Quiesce(expect, 15*time.Second)
+		flip = false
+		etcd.VerifBind(hosts...)
+		// once a watcher failed to come back the case has failed anyway: do not wait long again
+		wait := 15 * time.Second
+		if everStuck {
+			wait = 200 * time.Millisecond
+		}
+		stuck := !etcd.Quiesce(expect, wait)
+		everStuck = everStuck || stuck
 		sobs := map[string]any{}
 		for _, sid := range order {
 			s := subs[sid]
@@ -232,7 +259,7 @@ func VerifRunCluster(cs VerifClusterCase, hook VerifResHook) (res map[string]any
 			sobs[fmt.Sprint(sid)] = o
 		}
 		steps = append(steps, map[string]any{"log": etcd.TakeLog(), "stuck": stuck, "paused": paused, "err": errs,
-			"rev": etcd.Rev(), "live": etcd.Live(), "state": internal.VerifClusterState(host), "subs": sobs})
+			"rev": etcd.Rev(), "live": etcd.Live(), "state": internal.VerifClusterState(hosts...), "subs": sobs})
 	}
 	return map[string]any{"id": cs.ID, "steps": steps}
 }
